@@ -344,6 +344,13 @@ func c18Errors(c *fw.C, scratch string) {
 			if err := p.Store(bg, name, payload); err == nil {
 				c.Violation("C18.backend_errors_returned", ctx, "PutObject failed but Store reported success")
 			}
+			// once the backend works again, the same Persist must really write the object
+			f.failPut = false
+			if err := p.Store(bg, name, payload); err != nil {
+				c.Violation("C18.store_then_load", ctx, "Store retried after a transient PutObject failure failed: %v", err)
+			} else if got, err := p.Load(bg, name); err != nil || !bytes.Equal(got, payload) {
+				c.Violation("C18.store_then_load", ctx, "Store retried after a transient PutObject failure reported success, but Load returns %d bytes, err=%v (expected %d bytes)", len(got), err, len(payload))
+			}
 		case "get":
 			p.Store(bg, name, payload)
 			f.failGet = true
